@@ -481,3 +481,16 @@ def differential(R, *, modules, model, gen, oracle, nontrivial, n_quick, n_thoro
                         {"broken": what, "theorem_modules": modules, "correspondence": model,
                          "cases": [cases[i] for i in pure_disagreements[:5]]},
                         no_failing_input=True)
+
+
+def corpus_known(R, obs_entry):
+    """A corpus application may be the recorded witness of a known finding (meta {"known": "<id>"}): returns
+    that finding if known_findings.json lists it as known for this property (or names the property under "also")."""
+    kid = (obs_entry.get("meta") or {}).get("known")
+    if not kid:
+        return None
+    for f in R.kf.get("findings", []):
+        if f.get("status") == "known" and kid in (f.get("id"), f.get("corpus_known")) and \
+                (f["property"] == R.prop or R.prop in f.get("also", [])):
+            return f
+    return None
